@@ -11,6 +11,8 @@ that phases overlap; every render's backend-call digest must equal the digest ob
 a fresh process; a race report kills the worker and is a verdict. Sequential schedules cover "after any history of
 previous renders". Determinism at large: documents of the Flow.tla generator are rendered 4 times in one process and must
 give identical calls.
+Also: every 1-node document of Docs.tla (the C01 alphabet of ~140 feature bundles) and the 2-node documents over the core
+bundles are rendered 3 times and must give identical calls; the pool has a document with attachments.
 """
 import json
 import os
